@@ -21,6 +21,12 @@ Every other operation is instantaneous, so a trace (`List Op`) is an arbitrary m
 timing of the events.  The ping interval `T` is a parameter (`Cfg.T`, in ticks).
 
 Python exceptions are values: a step returns the (partially updated) state and the exception.
+
+The random source is part of the environment: the id of every keep-alive Ping is `os.urandom(4)`.  An id is an
+opaque token here — the model only ever compares two ids for equality (`hasId`: the dict lookups in `send_ping` and
+`handle_pong`) — and the environment may fix what the next draws return (`Op.rnd`, any sequence, repeats included);
+what it has not fixed is a value never returned before.  Nothing assumes that draws differ: a draw equal to an id
+still in `_pings_outstanding` runs into `send_ping`'s assert (`Err.assertionError`), as in the code.
 -/
 namespace WV.C16
 open WV WV.Gen
@@ -41,13 +47,17 @@ def Cfg.real (T : Nat) : Cfg := { T := T, tbl := TrafficTimer.table }
 inductive Err where
   | noTransition     -- Automat: input not declared in this state (raised before any change)
   | attributeError   -- a method call on `None`
+  | assertionError   -- `send_ping`: `assert ping_id not in self._pings_outstanding, "Duplicate ping_id"`
   deriving DecidableEq, Repr
 
 def Err.name : Err → String
-  | .noTransition => "NoTransition" | .attributeError => "AttributeError"
+  | .noTransition => "NoTransition" | .attributeError => "AttributeError" | .assertionError => "AssertionError"
 
-/-- one entry of `Manager._pings_outstanding` (insertion-ordered dict): ids are
-    first-occurrence indices of the `os.urandom(4)` values; `wire` = the connection whose
+/-- one entry of `Manager._pings_outstanding` (insertion-ordered dict).  A ping id is an OPAQUE token: the
+    model never looks inside the 4 bytes, it only compares ids for equality (dict key).  `id` is the
+    first-occurrence index of the `os.urandom(4)` value over the whole run, so two draws have the same `id`
+    iff the random source returned the same 4 bytes twice.  Freshness of a draw is NOT assumed anywhere
+    in this file (see `pingId`, `freshNext`).  `wire` = the connection whose
     `send_record` got the `Ping`, `none` if `Outbound` had no connection at that moment -/
 structure PingRec where
   id : Nat
@@ -78,7 +88,12 @@ structure St where
       transport delivers nothing (no Pong reaches `got_record`) -/
   readPaused : Bool := false
   pings : List PingRec := []
+  /-- the number of distinct 4-byte values drawn so far = the index a value never drawn before will get -/
   nextPing : Nat := 0
+  /-- the random source: what the next calls of `os.urandom(4)` will return (canonical indices), as far as
+      the environment has fixed it (`Op.rnd`; any sequence, repeats included).  Once it is used up a draw
+      returns a value that was never drawn before (`nextPing`). -/
+  draws : List Nat := []
   nextConn : Nat := 0
   -- observation log / ghost fields (never read by the modelled code)
   /-- `(conn, ping index, time)` of every `Ping` handed to a connection's `send_record` -/
@@ -115,28 +130,65 @@ def sendIfConnected (s : St) : Option Nat :=
   if Flags.send_if_connected_ignores_pause then s.outConn
   else if s.outPaused then none else s.outConn
 
-/-- `send_ping(os.urandom(4), got_pong)`: registers the ping, `send_if_connected(Ping(id))` -/
-def sendPing (s : St) : St :=
-  let id := s.nextPing
-  { s with
+/-! ### the random source
+
+`_send_ping_reset_timer` draws the id of every keep-alive Ping with `os.urandom(4)`.  Nothing makes two draws
+differ, and `send_ping` *asserts* that the id is not the key of a ping still outstanding — an unanswered ping is
+never retired from `_pings_outstanding`, and the Ping generated by `connector_connection_made` is never even
+written (`wire = none`), so every generation leaves at least one entry behind for good. -/
+
+/-- what `os.urandom(4)` returns, given what the environment has fixed (`draws`) and the number of distinct
+    values drawn so far (`next`, the index of a value never drawn before) -/
+def drawOf (draws : List Nat) (next : Nat) : Nat :=
+  match draws with
+  | [] => next
+  | d :: _ => d
+
+/-- `id in pings` (keys of `_pings_outstanding`) -/
+def hasId (pings : List PingRec) (id : Nat) : Bool := pings.any (fun p => p.id == id)
+
+/-- the value the next `os.urandom(4)` returns -/
+def pingId (s : St) : Nat := drawOf s.draws s.nextPing
+
+/-- the random source after that draw -/
+def afterDraw (s : St) : St :=
+  { s with draws := s.draws.tail, nextPing := max s.nextPing (pingId s + 1) }
+
+/-- `ping_id in self._pings_outstanding` -/
+def outstanding (s : St) (id : Nat) : Bool := hasId s.pings id
+
+/-- THE assumption on the random source, where one is needed: the next 4 bytes drawn are not the id of a
+    ping that is still outstanding.  (Equal to an id that has been answered, or drawn on another
+    connection and answered, is fine.) -/
+def freshNext (s : St) : Bool := !outstanding s (pingId s)
+
+/-- `send_ping(os.urandom(4), got_pong)`: draws the id, asserts it is not outstanding (`AssertionError`
+    before anything is registered or written), registers the ping, `send_if_connected(Ping(id))` -/
+def sendPing (s0 : St) : Res :=
+  let id := pingId s0
+  let s := afterDraw s0
+  -- assert ping_id not in self._pings_outstanding, "Duplicate ping_id"
+  if outstanding s id then (s, some .assertionError)
+  else
+  ({ s with
     pings := s.pings ++ [{ id := id, sent := s.now, wire := sendIfConnected s }],
-    nextPing := id + 1,
     lastPing := s.now,
     wireLog := match sendIfConnected s with
       | some c => s.wireLog ++ [(c, id, s.now)]
-      | none => s.wireLog }
+      | none => s.wireLog }, none)
 
 /-- `_send_ping_reset_timer`: ping, then `callLater(interval)` if there is no timer, else the
     branch the translator found in the source: `DelayedCall.delay(interval)` (deadline +=
-    interval) or `.reset(interval)` (deadline := now + interval) -/
-def sendPingResetTimer (cfg : Cfg) (s : St) : St :=
-  let s1 := sendPing s
+    interval) or `.reset(interval)` (deadline := now + interval).  An exception out of `send_ping`
+    leaves the timer as it was: not re-armed. -/
+def sendPingResetTimer (cfg : Cfg) (s : St) : Res :=
+  (sendPing s).andThen fun s1 =>
   match s1.timer with
-  | none => { s1 with timer := some (s1.now + cfg.T) }
+  | none => ({ s1 with timer := some (s1.now + cfg.T) }, none)
   | some d =>
-    if Flags.ping_timer_uses_delay then { s1 with timer := some (d + cfg.T) }
-    else if Flags.ping_timer_uses_reset then { s1 with timer := some (s1.now + cfg.T) }
-    else s1
+    if Flags.ping_timer_uses_delay then ({ s1 with timer := some (d + cfg.T) }, none)
+    else if Flags.ping_timer_uses_reset then ({ s1 with timer := some (s1.now + cfg.T) }, none)
+    else (s1, none)
 
 /-- `_signal_reconnect`: `if self._connection: self._connection.disconnect()` -/
 def signalReconnect (s : St) : St :=
@@ -146,9 +198,9 @@ def signalReconnect (s : St) : St :=
 
 /-! ## TrafficTimer: dispatch through the table (state first, then the outputs in order) -/
 
-def ttOutputs (cfg : Cfg) : List TrafficTimer.Output → St → St
-  | [], s => s
-  | .begin_timing :: r, s => ttOutputs cfg r (sendPingResetTimer cfg s)
+def ttOutputs (cfg : Cfg) : List TrafficTimer.Output → St → Res
+  | [], s => (s, none)
+  | .begin_timing :: r, s => (sendPingResetTimer cfg s).andThen (ttOutputs cfg r)
   | .signal_reconnect :: r, s => ttOutputs cfg r (signalReconnect s)
 
 def ttInput (cfg : Cfg) (i : TrafficTimer.Input) (s : St) : Res :=
@@ -157,7 +209,7 @@ def ttInput (cfg : Cfg) (i : TrafficTimer.Input) (s : St) : Res :=
   | some st =>
     match cfg.tbl st i with
     | none => (s, some .noTransition)
-    | some (st', outs) => (ttOutputs cfg outs { s with traffic := some st' }, none)
+    | some (st', outs) => ttOutputs cfg outs { s with traffic := some st' }
 
 /-! ## the Manager machine: generated table; only the outputs that touch the monitor have a body -/
 
@@ -284,6 +336,7 @@ inductive Op where
   | stall (n : Nat)          -- the clock jumps `n` ticks at once; a timer that fell due runs late
   | cpause (k : Nat)         -- the consumer of subchannel `k`: `inbound.subchannel_pauseProducing`
   | cresume (k : Nat)        -- … `subchannel_resumeProducing` / `subchannel_stopProducing` / `subchannel_closed`
+  | rnd (ids : List Nat)     -- the environment fixes what the next `os.urandom(4)` calls return (any ids, repeats too)
   deriving DecidableEq, Repr
 
 def step (cfg : Cfg) (s : St) : Op → Res
@@ -301,6 +354,7 @@ def step (cfg : Cfg) (s : St) : Op → Res
   | .stall n => stall cfg n s
   | .cpause k => (subPause k s, none)
   | .cresume k => (subResume k s, none)
+  | .rnd ids => ({ s with draws := s.draws ++ ids }, none)
 
 /-- run a trace; stops at the first exception -/
 def run (cfg : Cfg) : St → List Op → Res
@@ -369,6 +423,7 @@ def legal (s : St) : Op → Bool
   | .stall _ => true
   | .cpause _ => true
   | .cresume _ => true
+  | .rnd _ => true
 
 /-! ## call skeletons the bodies above mirror (checked against `Gen.Skel` in `Props.C16`) -/
 
@@ -423,6 +478,7 @@ def skeletonOK : Bool :=
 ```
 cfg <T>            -> ok            (ping interval in ticks, T ≥ 1)
 start | please 0/1 | made | made+lost | lost | stop | reconnecting | reconnect | pong <k> | pause | resume | stall <n> | adv <n>
+rnd <k> <k> …      (what the next `os.urandom(4)` calls return; `q=` in the summary = draws still fixed)
                    -> [<Exception> ]<state summary>
 ```
 -/
@@ -437,7 +493,7 @@ def showSt (s : St) : String :=
     (fun (c, i, t) => s!"{c}:{i}@{t}"))
   let drops := ";".intercalate (s.drops.map (fun (c, t) => s!"{c}@{t}"))
   let ab := ";".intercalate (s.abandons.map (fun (c, t) => s!"{c}@{t}"))
-  s!"t={s.now} M={Manager.State.name s.mgr} role={role} TT={tt} timer={showOpt s.timer} conn={showOpt s.conn} out={showOpt s.outConn} paused={s.outPaused} rp={s.readPaused} cons=[{",".intercalate (s.inPaused.map toString)}] pings=[{pings}] nwire={s.wireLog.length} wire=[{wire}] drops=[{drops}] abandons=[{ab}]"
+  s!"t={s.now} q={s.draws.length} M={Manager.State.name s.mgr} role={role} TT={tt} timer={showOpt s.timer} conn={showOpt s.conn} out={showOpt s.outConn} paused={s.outPaused} rp={s.readPaused} cons=[{",".intercalate (s.inPaused.map toString)}] pings=[{pings}] nwire={s.wireLog.length} wire=[{wire}] drops=[{drops}] abandons=[{ab}]"
 
 structure DrvSt where
   T : Nat
@@ -505,6 +561,11 @@ def drvStep (d : DrvSt) (line : String) : DrvSt × String :=
     if Flags.data_received_catches_only_disconnect then doOp .lost else (d, showSt d.s)
   | ["pause"] => doOp .pause
   | ["resume"] => doOp .resume
+  | "rnd" :: ks =>
+    -- the 4-byte values the harness's `os.urandom` will hand the Manager next, as first-occurrence indices
+    match ks.mapM String.toNat? with
+    | some ids => doOp (.rnd ids)
+    | none => (d, "bad-op")
   | ["adv", n] =>
     match n.toNat? with
     | some k =>
